@@ -424,6 +424,35 @@ class Function:
             n.clear()
             n.update(dict(k="IfStmt", cond=c, then=t_, ch=[c, t_, e_], normalized="conditional store", **{kk: vv for kk, vv in base.items() if kk != "t"}))
             n["else"] = e_
+        # N12b: `return c ? a : b;` is `if (c) return a; else return b;`
+        for i in range(len(self.nodes)):
+            n = self.nodes[i]
+            if n["k"] != "ReturnStmt" or n.get("value", -1) is None or n.get("value", -1) < 0:
+                continue
+            r = self.strip(n["value"], casts=False)
+            rn = self.nodes[r]
+            if rn["k"] != "ConditionalOperator" or len(rn["ch"]) != 3:
+                continue
+            c, a, b = rn["ch"]
+            if any("callee" in self.nodes[x] or self.nodes[x]["k"] in ("CXXNewExpr", "CompoundAssignOperator") or
+                   (self.nodes[x]["k"] == "UnaryOperator" and self.nodes[x].get("op") in ("++", "--")) or
+                   (self.nodes[x]["k"] == "BinaryOperator" and self.nodes[x].get("op") == "=") for x in self.walk(c)):
+                continue
+            base = dict(loc=n["loc"], f=n.get("f"), synthetic=True)
+            self.nodes.append(dict(k="ReturnStmt", value=a, ch=[a], **base))
+            t_ = len(self.nodes) - 1
+            self.nodes.append(dict(k="ReturnStmt", value=b, ch=[b], **base))
+            e_ = len(self.nodes) - 1
+            n.clear()
+            n.update(dict(k="IfStmt", cond=c, then=t_, ch=[c, t_, e_], normalized="conditional return", **base))
+            n["else"] = e_
+            # the CFG has one return element (after the blocks of the two arms): both synthetic returns stand there
+            if self.cfg:
+                for blk in self.cfg["blocks"]:
+                    for j, e in enumerate(blk["elems"]):
+                        if e.get("kind") == "stmt" and e.get("n") == i:
+                            blk["elems"][j:j + 1] = [dict(e, n=t_), dict(e, n=e_)]
+                            break
         self._parent = None
 
     # N10: `for (init; A && B; step) body` is `for (init; A; step) { if (!B) break; body }` when A is the comparison that bounds the
@@ -752,6 +781,41 @@ class Function:
                     def_node = asg[0]
                     init = self.nodes[asg[0]]["ch"][1]
                     lhs_of_def = self.strip(self.nodes[asg[0]]["ch"][0])
+                if is_new and ct.endswith("&") and not ct.endswith("&&") and init >= 0 and lhs_of_def < 0 and not any(c in ct for c in "[<"):
+                    # a reference the pinned tree does not have names an object: `int& center = centers[i];` — every use of the reference is
+                    # that lvalue, as long as nothing assigns to the variables the lvalue's address is computed from while the
+                    # reference is in scope (stores THROUGH the lvalue are what the reference is for)
+                    if self._path_names(init) is None:
+                        continue
+                    scope = self.parent[i]
+                    addr_ids = {self.nodes[y]["decl"].get("id") for y in self.walk(init) if self.nodes[y]["k"] == "DeclRefExpr" and
+                                self.nodes[y]["decl"].get("kind") in ("Var", "ParmVar")}
+                    rebinds = False
+                    for x in self.walk(scope if scope >= 0 else None):
+                        m = self.nodes[x]
+                        tgt = None
+                        if m["k"] in ("BinaryOperator", "CompoundAssignOperator") and m.get("op", "").endswith("=") and m["op"] not in ("==", "!=", "<=", ">="):
+                            tgt = self.strip(m["ch"][0])
+                        elif m["k"] == "UnaryOperator" and m.get("op") in ("++", "--"):
+                            tgt = self.strip(m["ch"][0])
+                        if tgt is not None and self.nodes[tgt]["k"] == "DeclRefExpr" and self.nodes[tgt]["decl"].get("id") in addr_ids:
+                            rebinds = True
+                    if rebinds or any(self.nodes[y]["k"] in ("CallExpr", "CXXMemberCallExpr", "CXXOperatorCallExpr") for y in self.walk(init)):
+                        continue
+                    uses = [x for x in self.walk() if self.nodes[x]["k"] == "DeclRefExpr" and self.nodes[x]["decl"].get("id") == d["id"]
+                            and self.nodes[x]["decl"].get("kind") == "Var"]
+                    if not uses:
+                        continue
+                    for u in uses:
+                        c = self._copy_subtree(init)
+                        un = self.nodes[u]
+                        un["aliasOf"] = d["name"]
+                        un["k"] = "ParenExpr"
+                        un["ch"] = [c]
+                    d["inlined"] = True
+                    if all(dd.get("inlined") for dd in n.get("decls", [])):
+                        gone.add(i)
+                    continue
                 if is_new:
                     # a local that the pinned tree does not have (a later refactoring introduced it): any scalar or pointer with a
                     # side-effect-free initialiser that is never assigned again and whose address is not taken
@@ -816,6 +880,22 @@ class Function:
             for m in self.nodes:
                 if m["k"] == "CompoundStmt" and any(x in gone for x in m["ch"]):
                     m["ch"] = [x for x in m["ch"] if x not in gone]
+        self._parent = None
+        # N17: `(&A[0])[k]` is `A[k]` (a pointer to the first element, subscripted) — what an inlined `p = &A[0]` leaves behind
+        for i in list(self.walk()):
+            n = self.nodes[i]
+            if n["k"] != "ArraySubscriptExpr" or len(n["ch"]) != 2:
+                continue
+            b = self.strip(n["ch"][0])
+            bn = self.nodes[b]
+            if bn["k"] == "UnaryOperator" and bn.get("op") == "&":
+                e = self.strip(bn["ch"][0])
+                en = self.nodes[e]
+                if en["k"] == "ArraySubscriptExpr" and len(en["ch"]) == 2:
+                    z = self.nodes[self.strip(en["ch"][1])]
+                    if z["k"] == "IntegerLiteral" and z.get("v") == 0:
+                        n["ch"] = [en["ch"][0], n["ch"][1]]
+                        n["normalized"] = "address of first element"
         self._parent = None
 
     # ---- tree
